@@ -175,8 +175,8 @@ pub fn run(args: &Args) -> Report {
     blake3::verif_join::install(Some(Callbacks { decide, event }));
     let small = args.get("miri-small") == Some("1");
     let plats = if small { args.platforms_or(&[P::Portable, P::Sse41]) } else { args.platforms_or(&[P::Portable, P::Native, P::Sse41]) };
-    let n_scripted = args.n(2000, 120_000);
-    let n_rayon = args.n(800, 40_000);
+    let n_scripted = args.n(2000, 20_000);
+    let n_rayon = args.n(800, 6_000);
     // exhaustive 3^k order assignments for small trees on the portable platform (a split at every
     // level above one chunk): 2 chunks -> 1 internal node, 4 -> 3, 6 -> 4, 8 -> 7
     let chunk_counts: &[usize] = if small { &[2, 4] } else if args.thorough { &[2, 4, 6, 8] } else { &[2, 4, 6] };
